@@ -275,3 +275,790 @@ Section LifeCert.
       eapply IH; [|exact H]. apply Hnext. reflexivity.
   Qed.
 End LifeCert.
+
+(* ============================================================ Part 2: the monitor *)
+
+(* ------------------------------------------------------------ what a step does to the attempt's
+   stopwatch (any pause table): only a tick moves it, only Stop / Continue touch its pause flag *)
+Lemma enter_terminate_sw cfg s r m : k_sw (ck (fst (enter_terminate cfg s r m))) = k_sw (ck s).
+Proof.
+  unfold enter_terminate. destruct (reaped s); [destruct r; reflexivity|].
+  destruct (is_kill m); [destruct r; [destruct (grace cfg =? 0)|]; reflexivity|reflexivity].
+Qed.
+
+Lemma arm_sw_act rp c a r : exec_arm rp c a = Ok r -> act (k_sw (fst r)) = act (k_sw c).
+Proof.
+  intros H. apply exec_arm_nums in H.
+  apply (f_equal (fun x => fst (fst (fst (fst (fst x)))))) in H. exact H.
+Qed.
+
+Lemma arm_dsl_rem rp c a r : exec_arm rp c a = Ok r -> rem (k_dsl (fst r)) = rem (k_dsl c).
+Proof.
+  intros H. apply exec_arm_nums in H.
+  apply (f_equal (fun x => snd (fst x))) in H. exact H.
+Qed.
+
+Lemma ucore_sw tbl cfg u ae r : ucore tbl cfg u ae = Ok r ->
+  match ae with
+  | ATick dt => k_sw (ck (fst r)) = swc_tick dt (k_sw (ck u))
+  | AReq RStop | AReq RContinue => act (k_sw (ck (fst r))) = act (k_sw (ck u))
+  | _ => k_sw (ck (fst r)) = k_sw (ck u)
+  end.
+Proof.
+  intros H. destruct ae as [dt|wt| | |ok| |q].
+  - cbn [ucore] in H. injection H as <-. reflexivity.
+  - unfold ucore in H. destruct (ph u) as [|[]| | |]; try (injection H as <-; reflexivity).
+    destruct wt.
+    + pose proof (enter_terminate_sw cfg (with_hits (with_slow u true) (hits u + 1)) TTimeout
+                    (timeout_method cfg)) as E.
+      destruct (enter_terminate cfg (with_hits (with_slow u true) (hits u + 1)) TTimeout
+                  (timeout_method cfg)) as [s2 o2].
+      injection H as <-. exact E.
+    + injection H as <-. reflexivity.
+  - unfold ucore in H. destruct (ph u) as [|[]| | |]; injection H as <-; reflexivity.
+  - unfold ucore in H. destruct (ph u) as [|[]| | |]; injection H as <-; reflexivity.
+  - unfold ucore in H. destruct (ph u) as [|[]| | |]; injection H as <-; reflexivity.
+  - unfold ucore in H. destruct (ph u) as [|[]| | |]; injection H as <-; reflexivity.
+  - unfold ucore in H.
+    destruct (ph u) as [|[]| | |] eqn:Hp; destruct q as [| |sr| |];
+      try (injection H as <-; reflexivity);
+      try (match type of H with obind (exec_arm ?rp ?c ?a) _ = _ =>
+             destruct (exec_arm rp c a) as [x|] eqn:E; cbn [obind] in H; [|discriminate];
+             injection H as <-; cbn [fst with_ck mk ck]; eapply arm_sw_act; exact E
+           end).
+    + injection H as <-. apply enter_terminate_sw.
+Qed.
+
+Lemma ustep_sw tbl cfg u ue r : ustep tbl cfg u ue = Ok r ->
+  match ue with
+  | Tick dt => k_sw (ck (fst r)) = swc_tick dt (k_sw (ck u))
+  | Req RStop | Req RContinue => act (k_sw (ck (fst r))) = act (k_sw (ck u))
+  | _ => k_sw (ck (fst r)) = k_sw (ck u)
+  end.
+Proof.
+  unfold ustep. intros H.
+  destruct (annotate cfg u ue) as [ae|] eqn:Ha.
+  - pose proof (ucore_sw tbl cfg u ae r H) as Hs.
+    destruct ue; cbn [annotate] in Ha;
+      try (injection Ha as <-; exact Hs);
+      try (destruct (ph u); try discriminate;
+           match type of Ha with (if ?b then _ else _) = _ => destruct b end; try discriminate;
+           injection Ha as <-; exact Hs).
+  - injection H as <-. destruct ue; cbn [annotate] in Ha; try discriminate; reflexivity.
+Qed.
+
+(* what a step of the delay loop does to the delay sleep (any pause table) *)
+Lemma dstep_dsl tbl d de r : d_done d = false -> dstep tbl d de = Ok r ->
+  match de with
+  | DTick dt => k_dsl (d_ck (fst r)) = slc_tick dt (k_dsl (d_ck d)) /\ d_done (fst r) = false
+  | DFire => d_ck (fst r) = d_ck d /\ (d_done (fst r) = true -> slc_due (k_dsl (d_ck d)) = true)
+  | DReq q => rem (k_dsl (d_ck (fst r))) = rem (k_dsl (d_ck d)) /\
+              (d_done (fst r) = true -> is_cancel_req q = true)
+  end.
+Proof.
+  intros Hdn H. unfold dstep in H. rewrite Hdn in H.
+  destruct de as [dt| |[| |sr| |]].
+  - injection H as <-. split; reflexivity.
+  - destruct (slc_due (k_dsl (d_ck d))) eqn:E; injection H as <-; cbn [fst d_ck d_done];
+      (split; [reflexivity|]); [reflexivity|]. rewrite Hdn. discriminate.
+  - destruct (exec_arm true (d_ck d) (t_delay_stop tbl)) as [x|] eqn:E; cbn [obind] in H; [|discriminate].
+    injection H as <-. cbn [fst d_ck d_done]. split; [eapply arm_dsl_rem; exact E|discriminate].
+  - destruct (exec_arm true (d_ck d) (t_delay_cont tbl)) as [x|] eqn:E; cbn [obind] in H; [|discriminate].
+    injection H as <-. cbn [fst d_ck d_done]. split; [eapply arm_dsl_rem; exact E|discriminate].
+  - injection H as <-. split; reflexivity.
+  - injection H as <-. split; reflexivity.
+  - injection H as <-. split; [reflexivity|]. cbn [fst]. rewrite Hdn. discriminate.
+Qed.
+
+Lemma slc_tick_credit dt s :
+  rem s + 0 <= rem (slc_tick dt s) + (if lpaused s then 0 else dt).
+Proof.
+  unfold slc_tick. destruct (lpaused s); cbn [rem]; lia.
+Qed.
+
+Lemma jc_stop_is_stop j : jc_stop j = is_stop j.
+Proof. reflexivity. Qed.
+
+Lemma dinv_paused d j : dinv d j -> d_done d = false ->
+  lpaused (k_dsl (d_ck d)) = is_stop j.
+Proof.
+  intros H Hd. specialize (H Hd).
+  change (lpaused (k_dsl (d_ck d))) with (lpaused (k_dsl (zclocks (d_ck d)))).
+  rewrite H. reflexivity.
+Qed.
+
+Section LifeMonitor.
+  Variable tbl : ptable.
+  Variable RS : PositiveSet.t.
+  Hypothesis Hcert : life_cert_with tbl RS = true.
+  Hypothesis Hd : dcert tbl = true.
+
+  (* a Stop handled by the running or terminating loop pauses the attempt's stopwatch *)
+  Lemma stop_pauses_sw cfg u t r :
+    PositiveSet.mem (code (A u t (grace cfg =? 0))) RS = true ->
+    env_ok t (AReq RStop) = true ->
+    (ph u = PRunning \/ exists x, ph u = PTerminating x) ->
+    ucore tbl cfg u (AReq RStop) = Ok r ->
+    spaused (k_sw (ck (fst r))) = true.
+  Proof.
+    intros Hm Hok Hp Hr.
+    destruct (life_core_step tbl RS Hcert cfg u t (AReq RStop) Hm Hok eq_refl) as (Htr & _).
+    cbn [norm_ev] in Htr. unfold life_trans_ok in Htr. cbn [A a_t a_u a_g0] in Htr.
+    rewrite Hok in Htr. cbn [aguard andb] in Htr.
+    pose proof (ucore_abs tbl cfg u (AReq RStop)) as Hsim. rewrite Hr in Hsim.
+    destruct (ucore tbl (abs_cfg (grace cfg =? 0)) (abs_state u) (AReq RStop)) as [r1|]; [|discriminate].
+    cbn [omap] in Hsim. assert (Hs : ares r1 = ares r) by congruence. clear Hsim.
+    apply (f_equal fst) in Hs. unfold ares in Hs. cbn [fst] in Hs. rename Hs into Hsim.
+    change (ph (abs_state u)) with (ph u) in Htr.
+    assert (Hop : owned_paused (abs_state (fst r1)) = true).
+    { destruct Hp as [Hp|[x Hp]]; rewrite Hp in Htr; apply andb_prop in Htr as [H _]; exact H. }
+    rewrite Hsim in Hop.
+    assert (Hph : ph (fst r) = ph u).
+    { unfold ucore in Hr. destruct Hp as [Hp|[x Hp]]; rewrite Hp in Hr;
+        match type of Hr with obind (exec_arm ?rp ?c ?a) _ = _ =>
+          destruct (exec_arm rp c a) as [x1|]; cbn [obind] in Hr; [|discriminate] end;
+        injection Hr as <-; reflexivity. }
+    unfold owned_paused in Hop. change (ph (abs_state (fst r))) with (ph (fst r)) in Hop.
+    rewrite Hph in Hop.
+    destruct Hp as [Hp|[x Hp]]; rewrite Hp in Hop.
+    - apply andb_prop in Hop as [H _]. exact H.
+    - apply andb_prop in Hop as [H _]. apply andb_prop in H as [H _]. exact H.
+  Qed.
+
+  (* the fields of the successor of a monitored step *)
+  Lemma lsys_step_fields unicast c y e y' :
+    lsys_step unicast tbl c y e = LOk y' ->
+    lenv_ok unicast (y_s y) (y_t y) e = true /\
+    exists o, lstep tbl c (y_s y) e = Ok (y_s y', o) /\
+      let s := y_s y in let t := y_t y in let s' := y_s y' in
+      let dt := tick_of e in
+      let un1 := y_un y + (if jc_stop (lt_jc t) then 0 else dt) in
+      let run1 := y_run y + match l_ph s with
+                            | LDelay d => if lpaused (k_dsl (d_ck d)) then 0 else dt
+                            | _ => 0 end in
+      y_t y' = lenv_next t e /\
+      y_un y' = (if phase_begins s s' then 0 else un1) /\
+      y_run y' = (if phase_begins s s' then 0 else run1) /\
+      y_dc y' = y_dc y + match l_ph s with
+                         | LDelay _ => if lt_cancel t then dt else 0
+                         | _ => 0 end /\
+      y_bad y' = (y_bad y || (phase_begins s s' && jc_stop (lt_jc (lenv_next t e)))
+                  || (ignores_job_control s && match e with LU (Req RStop) => true | _ => false end)) /\
+      y_log y' = log_step s s' e un1 run1 (y_log y).
+  Proof.
+    unfold lsys_step. intros H.
+    destruct (lenv_ok unicast (y_s y) (y_t y) e); [|discriminate]. split; [reflexivity|].
+    destruct (lstep tbl c (y_s y) e) as [[s' o]|]; [|discriminate].
+    injection H as <-. exists o. cbn. repeat split; reflexivity.
+  Qed.
+
+  (* ---------------------------------------------------------- the monitor's invariant *)
+  Definition att_good (u : ustate) (t : ltracker) (un : N) : Prop :=
+    act (k_sw (ck u)) <= un /\ (lt_jc t = JStop -> spaused (k_sw (ck u)) = true).
+  Definition del_good (d : dstate) (t : ltracker) (un run : N) : Prop :=
+    run <= un /\ dinv d (lt_jc t).
+
+  (* unconditionally: a delay that was not cut short ran its sleep for the whole configured time *)
+  Definition log_always (log : list lrec) : Prop :=
+    forall k dl un run, In (RDelay k dl un run false) log -> dl <= run.
+  (* outside the known class: reported time and the delay exclude stopped time *)
+  Definition log_good (log : list lrec) : Prop :=
+    (forall k res sl tt un, In (RAttempt k res sl tt un) log -> tt <= un) /\
+    (forall k dl un run, In (RDelay k dl un run false) log -> dl <= un).
+
+  Definition minv (c : lcfg) (y : lsys) : Prop :=
+    linv RS c (y_s y) (y_t y) /\
+    match l_ph (y_s y) with
+    | LAttempt u => ph u <> PDone
+    | LDelay d => l_delay (y_s y) <= rem (k_dsl (d_ck d)) + y_run y
+    | _ => True
+    end /\
+    log_always (y_log y) /\
+    (y_bad y = false ->
+       match l_ph (y_s y) with
+       | LAttempt u => att_good u (y_t y) (y_un y)
+       | LDelay d => del_good d (y_t y) (y_un y) (y_run y)
+       | _ => True
+       end /\ log_good (y_log y)).
+
+  Lemma minv_init c : minv c (lsys0 c).
+  Proof.
+    split; [apply linv_init|]. split; [exact I|]. split; [intros k dl un run []|].
+    intros _. split; [exact I|]. split; [intros k res sl tt un []|intros k dl un run []].
+  Qed.
+
+  Lemma same_state_begins s : phase_begins s s = false.
+  Proof. unfold phase_begins. destruct (l_ph s); reflexivity. Qed.
+  Lemma same_state_log s e un run log : log_step s s e un run log = log.
+  Proof. unfold log_step. destruct (l_ph s); reflexivity. Qed.
+
+  (* a step that changes neither the unit nor the tracker, and during an attempt or a delay
+     carries no time *)
+  Lemma minv_idle c y y' :
+    minv c y -> y_s y' = y_s y -> y_t y' = y_t y -> y_bad y' = y_bad y -> y_log y' = y_log y ->
+    (consuming (y_s y) = true -> y_un y' = y_un y /\ y_run y' = y_run y) ->
+    minv c y'.
+  Proof.
+    intros (Hli & Hph & Hla & Hg) Hs Ht Hb Hl Hc. unfold minv. rewrite Hs, Ht, Hb, Hl.
+    split; [exact Hli|]. split.
+    - destruct (l_ph (y_s y)) eqn:Hp; try exact Hph.
+      destruct Hc as [_ Hr]; [unfold consuming; rewrite Hp; reflexivity|]. rewrite Hr. exact Hph.
+    - split; [exact Hla|]. intros Hbad. specialize (Hg Hbad). destruct Hg as [Hg1 Hg2].
+      split; [|exact Hg2].
+      destruct (l_ph (y_s y)) eqn:Hp; try exact Hg1;
+        (destruct Hc as [Hu Hr]; [unfold consuming; rewrite Hp; reflexivity|]); rewrite Hu, ?Hr; exact Hg1.
+  Qed.
+
+  Lemma lenv_next_jc_other t r :
+    r <> RStop -> r <> RContinue -> lt_jc (lenv_next t (LU (Req r))) = lt_jc t.
+  Proof. destruct r as [| |[]| |]; intros H1 H2; try reflexivity; contradiction. Qed.
+
+  (* one step of an attempt keeps "reported time <= unstopped time" and "Stop outstanding =>
+     stopwatch paused", unless a Stop lands in a loop that ignores job control *)
+  Lemma att_good_step cfg u t un ue u' outs :
+    PositiveSet.mem (code (A u (tr_of t) (grace cfg =? 0))) RS = true ->
+    (ue = Req RStop -> env_ok (tr_of t) (AReq RStop) = true /\
+                       (ph u = PRunning \/ exists x, ph u = PTerminating x)) ->
+    ustep tbl cfg u ue = Ok (u', outs) -> att_good u t un ->
+    att_good u' (lenv_next t (LU ue)) (un + (if jc_stop (lt_jc t) then 0 else tick_of (LU ue))).
+  Proof.
+    intros Hm Hstop Hu [Ha Hj].
+    pose proof (ustep_sw tbl cfg u ue (u', outs) Hu) as Hs. cbn [fst] in Hs.
+    unfold att_good.
+    destruct ue as [dt| | | |ok| |r]; cbn [tick_of]; [cbn [lenv_next]..|].
+    - (* tick *)
+      rewrite Hs. destruct (spaused (k_sw (ck u))) eqn:Hp.
+      + rewrite tick_paused_stopwatch by exact Hp. split; [|intros _; exact Hp].
+        destruct (jc_stop (lt_jc t)); lia.
+      + assert (Hn : jc_stop (lt_jc t) = false).
+        { destruct (lt_jc t) eqn:Hjc; try reflexivity. specialize (Hj eq_refl). congruence. }
+        rewrite Hn. rewrite tick_running_stopwatch by exact Hp. split; [lia|].
+        intros Hjc. rewrite Hjc in Hn. discriminate.
+    - rewrite Hs. split; [destruct (jc_stop (lt_jc t)); lia|exact Hj].
+    - rewrite Hs. split; [destruct (jc_stop (lt_jc t)); lia|exact Hj].
+    - rewrite Hs. split; [destruct (jc_stop (lt_jc t)); lia|exact Hj].
+    - rewrite Hs. split; [destruct (jc_stop (lt_jc t)); lia|exact Hj].
+    - rewrite Hs. split; [destruct (jc_stop (lt_jc t)); lia|exact Hj].
+    - assert (Hun : un + (if jc_stop (lt_jc t) then 0 else 0) = un) by (destruct (jc_stop (lt_jc t)); lia).
+      rewrite Hun.
+      destruct r as [| |sr| |].
+      + (* Stop *)
+        rewrite Hs. split; [exact Ha|]. intros _.
+        destruct (Hstop eq_refl) as [Hok Hph].
+        unfold ustep in Hu. cbn [annotate] in Hu.
+        apply (stop_pauses_sw cfg u (tr_of t) (u', outs) Hm Hok Hph Hu).
+      + rewrite Hs. split; [exact Ha|]. cbn. discriminate.
+      + rewrite Hs. split; [exact Ha|]. rewrite lenv_next_jc_other by discriminate. exact Hj.
+      + rewrite Hs. split; [exact Ha|]. rewrite lenv_next_jc_other by discriminate. exact Hj.
+      + rewrite Hs. split; [exact Ha|]. rewrite lenv_next_jc_other by discriminate. exact Hj.
+  Qed.
+
+  (* one step of the delay loop: the sleep's remaining time plus the time it has been running
+     covers the configured delay; outside the known class that running time is unstopped time *)
+  Lemma del_step d t un run dl e de d' outs :
+    dstep tbl d de = Ok (d', outs) -> devent_of e = Some de -> d_done d = false ->
+    denv_ok (lt_jc t) de = true -> lt_jc (lenv_next t e) = denv_next (lt_jc t) de ->
+    dl <= rem (k_dsl (d_ck d)) + run ->
+    let un1 := un + (if jc_stop (lt_jc t) then 0 else tick_of e) in
+    let run1 := run + (if lpaused (k_dsl (d_ck d)) then 0 else tick_of e) in
+    (d_done d' = false -> dl <= rem (k_dsl (d_ck d')) + run1) /\
+    (d_done d' = true ->
+       match e with LU (Req r) => is_cancel_req r | _ => false end = false -> dl <= run1) /\
+    (del_good d t un run ->
+       run1 <= un1 /\ (d_done d' = false -> dinv d' (lt_jc (lenv_next t e)))).
+  Proof.
+    intros Hst Hde Hdn Hok Hjc Hdl un1 run1.
+    pose proof (dstep_dsl tbl d de (d', outs) Hdn Hst) as Hnum. cbn [fst] in Hnum.
+    assert (Hinv : del_good d t un run ->
+                   d_done d' = false -> dinv d' (lt_jc (lenv_next t e))).
+    { intros [_ Hi] _. destruct (dstep_sound tbl Hd d (lt_jc t) de Hi Hok) as (r & Hr & Hi' & _).
+      rewrite Hst in Hr. injection Hr as <-. cbn [fst] in Hi'. rewrite Hjc. exact Hi'. }
+    destruct e as [[dt| | | | | |r]| |a]; cbn [devent_of] in Hde; try discriminate;
+      injection Hde as <-; subst un1 run1; cbn [tick_of].
+    - (* tick *)
+      destruct Hnum as [Hk Hdd]. split; [|split].
+      + intros _. rewrite Hk. pose proof (slc_tick_credit dt (k_dsl (d_ck d))). lia.
+      + rewrite Hdd. discriminate.
+      + intros Hg. split; [|apply Hinv; exact Hg]. destruct Hg as [Hru Hi].
+        rewrite (dinv_paused d (lt_jc t) Hi Hdn). change (jc_stop (lt_jc t)) with (is_stop (lt_jc t)).
+        destruct (is_stop (lt_jc t)); lia.
+    - (* request *)
+      destruct Hnum as [Hk Hcut].
+      assert (E1 : un + (if jc_stop (lt_jc t) then 0 else 0) = un) by (destruct (jc_stop (lt_jc t)); lia).
+      assert (E2 : run + (if lpaused (k_dsl (d_ck d)) then 0 else 0) = run)
+        by (destruct (lpaused (k_dsl (d_ck d))); lia).
+      rewrite E1, E2. split; [|split].
+      + intros _. rewrite Hk. exact Hdl.
+      + intros Hdd Hc. specialize (Hcut Hdd). congruence.
+      + intros Hg. split; [exact (proj1 Hg)|apply Hinv; exact Hg].
+    - (* the sleep completes *)
+      destruct Hnum as [Hk Hdue].
+      assert (E1 : un + (if jc_stop (lt_jc t) then 0 else 0) = un) by (destruct (jc_stop (lt_jc t)); lia).
+      assert (E2 : run + (if lpaused (k_dsl (d_ck d)) then 0 else 0) = run)
+        by (destruct (lpaused (k_dsl (d_ck d))); lia).
+      rewrite E1, E2. split; [|split].
+      + intros _. rewrite Hk. exact Hdl.
+      + intros Hdd _. specialize (Hdue Hdd). unfold slc_due in Hdue.
+        apply andb_prop in Hdue as [_ Hz]. apply N.eqb_eq in Hz. lia.
+      + intros Hg. split; [exact (proj1 Hg)|apply Hinv; exact Hg].
+  Qed.
+
+  (* ---------------------------------------------------------- kinds of monitored steps *)
+  Lemma minv_passive c y y' :
+    minv c y -> linv RS c (y_s y') (y_t y') -> consuming (y_s y') = false ->
+    y_log y' = y_log y -> (y_bad y' = false -> y_bad y = false) -> minv c y'.
+  Proof.
+    intros (_ & _ & Hla & Hg) Hli Hc Hl Hb. unfold minv. rewrite Hl.
+    split; [exact Hli|]. unfold consuming in Hc.
+    split; [destruct (l_ph (y_s y')); try discriminate; exact I|].
+    split; [exact Hla|]. intros Hbad. destruct (Hg (Hb Hbad)) as [_ Hg2].
+    split; [destruct (l_ph (y_s y')); try discriminate; exact I|exact Hg2].
+  Qed.
+
+  Lemma minv_begin_attempt c y y' cfgu :
+    minv c y -> linv RS c (y_s y') (y_t y') -> l_ph (y_s y') = LAttempt (uinit cfgu) ->
+    y_un y' = 0 -> y_log y' = y_log y ->
+    (y_bad y' = false -> y_bad y = false /\ jc_stop (lt_jc (y_t y')) = false) -> minv c y'.
+  Proof.
+    intros (_ & _ & Hla & Hg) Hli Hp Hu Hl Hb. unfold minv. rewrite Hl, Hp, Hu.
+    split; [exact Hli|]. split; [discriminate|]. split; [exact Hla|].
+    intros Hbad. destruct (Hb Hbad) as [Hb1 Hb2]. destruct (Hg Hb1) as [_ Hg2].
+    split; [|exact Hg2]. split; [cbn; lia|]. intros Hj. rewrite Hj in Hb2. discriminate.
+  Qed.
+
+  Lemma idle_fields unicast c y e y' :
+    lsys_step unicast tbl c y e = LOk y' -> y_s y' = y_s y -> lenv_next (y_t y) e = y_t y ->
+    (consuming (y_s y) = true -> tick_of e = 0) ->
+    match e with LU (Req RStop) => False | _ => True end ->
+    y_t y' = y_t y /\ y_bad y' = y_bad y /\ y_log y' = y_log y /\
+    (consuming (y_s y) = true -> y_un y' = y_un y /\ y_run y' = y_run y).
+  Proof.
+    intros Hstep Hs Hn Htick Hns.
+    destruct (lsys_step_fields unicast c y e y' Hstep) as (_ & o & _ & Ht & Hun & Hrun & _ & Hbad & Hlog).
+    cbv zeta in Ht, Hun, Hrun, Hbad, Hlog.
+    rewrite Hs in Hun, Hrun, Hbad, Hlog. rewrite same_state_begins in Hun, Hrun, Hbad.
+    rewrite same_state_log in Hlog. rewrite Hn in Ht.
+    split; [exact Ht|]. split; [|split; [exact Hlog|]].
+    - rewrite Hbad. cbn [andb]. rewrite Bool.orb_false_r.
+      assert (E : match e with LU (Req RStop) => true | _ => false end = false).
+      { destruct e as [[| | | | | |[]]| |]; try reflexivity. contradiction. }
+      rewrite E, Bool.andb_false_r, Bool.orb_false_r. reflexivity.
+    - intros Hc. rewrite (Htick Hc) in Hun, Hrun. split.
+      + rewrite Hun. destruct (jc_stop (lt_jc (y_t y))); lia.
+      + rewrite Hrun. destruct (l_ph (y_s y)); try lia.
+        destruct (lpaused (k_dsl (d_ck d))); lia.
+  Qed.
+
+  Lemma minv_idle_step unicast c y e y' :
+    minv c y -> lsys_step unicast tbl c y e = LOk y' -> y_s y' = y_s y ->
+    lenv_next (y_t y) e = y_t y -> (consuming (y_s y) = true -> tick_of e = 0) ->
+    match e with LU (Req RStop) => False | _ => True end -> minv c y'.
+  Proof.
+    intros Hi Hstep Hs Hn Htick Hns.
+    destruct (idle_fields unicast c y e y' Hstep Hs Hn Htick Hns) as (Ht & Hb & Hl & Hc).
+    apply (minv_idle c y y' Hi Hs Ht Hb Hl Hc).
+  Qed.
+
+  Lemma devent_env unicast s t e de :
+    lenv_ok unicast s t e = true -> devent_of e = Some de ->
+    denv_ok (lt_jc t) de = true /\ lt_jc (lenv_next t e) = denv_next (lt_jc t) de.
+  Proof.
+    intros Hok Hde.
+    destruct e as [[]| |]; cbn in Hde; try discriminate; injection Hde as <-; try (split; reflexivity).
+    cbn [lenv_ok] in Hok. apply andb_prop in Hok as [_ H]. split; [apply env_req_denv; exact H|].
+    apply lenv_next_jc.
+  Qed.
+
+  Lemma bad_false_parts (a b1 b2 c1 c2 : bool) :
+    a || (b1 && b2) || (c1 && c2) = false -> a = false /\ b1 && b2 = false /\ c1 && c2 = false.
+  Proof. destruct a, b1, b2, c1, c2; cbn; intros H; try discriminate; auto. Qed.
+
+  Lemma in_cons_attempt (P : lrec -> Prop) k res sl tt un log x :
+    In x (RAttempt k res sl tt un :: log) ->
+    (x = RAttempt k res sl tt un) \/ In x log.
+  Proof. intros [H|H]; [left; symmetry; exact H|right; exact H]. Qed.
+
+  Lemma minv_idle_nonconsuming unicast c y e y' :
+    minv c y -> lsys_step unicast tbl c y e = LOk y' -> consuming (y_s y) = false ->
+    y_s y' = y_s y -> minv c y'.
+  Proof.
+    intros Hi Hstep Hc Hs.
+    destruct (lsys_step_fields unicast c y e y' Hstep) as (Hok & _).
+    assert (Hnr : forall r, e <> LU (Req r)).
+    { intros r ->. cbn [lenv_ok] in Hok. rewrite Hc in Hok. discriminate. }
+    apply (minv_idle_step unicast c y e y' Hi Hstep Hs).
+    - destruct e as [[| | | | | |r]| |]; try reflexivity. exfalso. apply (Hnr r). reflexivity.
+    - rewrite Hc. discriminate.
+    - destruct e as [[| | | | | |r]| |]; try exact I. exfalso. apply (Hnr r). reflexivity.
+  Qed.
+
+  Lemma minv_idle_consuming unicast c y e y' :
+    minv c y -> lsys_step unicast tbl c y e = LOk y' -> y_s y' = y_s y ->
+    match e with LU (Tick _) | LU (Req _) => False | _ => True end -> minv c y'.
+  Proof.
+    intros Hi Hstep Hs He.
+    apply (minv_idle_step unicast c y e y' Hi Hstep Hs).
+    - destruct e as [[| | | | | |r]| |]; try reflexivity. contradiction.
+    - intros _. destruct e as [[| | | | | |r]| |]; try reflexivity. contradiction.
+    - destruct e as [[| | | | | |r]| |]; try exact I. contradiction.
+  Qed.
+
+  Lemma minv_step unicast c y e y' :
+    minv c y -> lsys_step unicast tbl c y e = LOk y' -> minv c y'.
+  Proof.
+    intros Hinv Hstep.
+    assert (Hli' : linv RS c (y_s y') (y_t y')).
+    { destruct Hinv as [Hli _].
+      destruct (lsys_step_sound tbl RS Hcert Hd unicast c y e Hli) as [_ H]. apply H. exact Hstep. }
+    destruct (lsys_step_fields unicast c y e y' Hstep)
+      as (Hok & o & Hl & Ht & Hun & Hrun & _ & Hbad & Hlog).
+    cbv zeta in Ht, Hun, Hrun, Hbad, Hlog.
+    unfold lstep in Hl.
+    destruct (l_ph (y_s y)) as [|u|d| | |] eqn:Hp.
+    - (* waiting for the answer to Started *)
+      assert (Hnc : consuming (y_s y) = false) by (unfold consuming; rewrite Hp; reflexivity).
+      destruct e as [ue| |[]];
+        try (injection Hl as Hs _; apply (minv_idle_nonconsuming unicast c y _ y' Hinv Hstep Hnc (eq_sym Hs))).
+      + injection Hl as Hs _.
+        apply (minv_begin_attempt c y y' (lc_unit c) Hinv Hli').
+        * rewrite <- Hs. reflexivity.
+        * rewrite Hun, <- Hs. unfold phase_begins. rewrite Hp. reflexivity.
+        * rewrite Hlog. unfold log_step. rewrite Hp. reflexivity.
+        * intros Hb. rewrite Hbad in Hb. apply bad_false_parts in Hb as (Hb1 & Hb2 & _).
+          split; [exact Hb1|]. rewrite <- Hs in Hb2. unfold phase_begins in Hb2. rewrite Hp in Hb2.
+          cbn [l_ph mkl andb] in Hb2. rewrite Ht. exact Hb2.
+      + injection Hl as Hs _. apply (minv_passive c y y' Hinv Hli').
+        * rewrite <- Hs. reflexivity.
+        * rewrite Hlog. unfold log_step. rewrite Hp. reflexivity.
+        * intros Hb. rewrite Hbad in Hb. apply bad_false_parts in Hb as (Hb1 & _). exact Hb1.
+    - (* an attempt *)
+      destruct e as [ue| |a];
+        try (injection Hl as Hs _; apply (minv_idle_consuming unicast c y _ y' Hinv Hstep (eq_sym Hs) I)).
+      destruct (ustep tbl (lc_unit c) u ue) as [[u' outs]|] eqn:Hu; [|discriminate].
+      destruct Hinv as (Hli & Hph & Hla & Hg). rewrite Hp in Hph, Hg.
+      unfold linv in Hli. rewrite Hp in Hli. destruct Hli as [Hbinv Hm].
+      (* what holds of the attempt after the step when the run stays outside the known class *)
+      assert (Hatt : y_bad y' = false ->
+                     y_bad y = false /\
+                     att_good u' (y_t y')
+                              (y_un y + (if jc_stop (lt_jc (y_t y)) then 0 else tick_of (LU ue)))).
+      { intros Hb. rewrite Hbad in Hb. apply bad_false_parts in Hb as (Hb1 & _ & Hb3).
+        split; [exact Hb1|]. rewrite Ht.
+        apply (att_good_step (lc_unit c) u (y_t y) (y_un y) ue u' outs Hm); [|exact Hu|apply Hg; exact Hb1].
+        intros ->. cbn [lenv_ok] in Hok. apply andb_prop in Hok as [_ Hok]. split; [exact Hok|].
+        rewrite Bool.andb_true_r in Hb3. unfold ignores_job_control in Hb3. rewrite Hp in Hb3.
+        destruct (ph u) as [|x| | |]; try discriminate; [left; reflexivity|right; exists x; reflexivity|].
+        exfalso. apply Hph. reflexivity. }
+      destruct (ph u') eqn:Hph'.
+      5:{ (* run_test returned *)
+        destruct (finish_attempt c (y_s y) u') as [[s2 o2]|] eqn:Hf; cbn [obind] in Hl; [|discriminate].
+        cbn [fst] in Hl. injection Hl as Hs _.
+        assert (Hshape :
+          l_done s2 = {| ar_no := l_k (y_s y); ar_result := uresult u'; ar_slow := slow u';
+                         ar_time := time_taken u' |} :: l_done (y_s y) /\
+          (l_ph s2 = LFinishedP \/ exists dl, l_ph s2 = LDelay (dinit dl) /\ l_delay s2 = dl)).
+        { unfold finish_attempt in Hf. destruct (ures_success (uresult u')).
+          - injection Hf as <- _. split; [reflexivity|left; reflexivity].
+          - destruct (l_k (y_s y) <? lc_total c).
+            + destruct (b_next (lc_js c (l_k (y_s y))) (l_bs (y_s y))) as [[dl bs']|]; [|discriminate].
+              injection Hf as <- _. split; [reflexivity|right; exists dl; split; reflexivity].
+            + injection Hf as <- _. split; [reflexivity|left; reflexivity]. }
+        destruct Hshape as [Hdone Hshape]. rewrite <- Hs in *.
+        assert (Hlog' : y_log y' =
+                        RAttempt (l_k (y_s y)) (uresult u') (slow u') (time_taken u')
+                                 (y_un y + (if jc_stop (lt_jc (y_t y)) then 0 else tick_of (LU ue)))
+                                 :: y_log y).
+        { rewrite Hlog. unfold log_step. rewrite Hp, Hdone.
+          destruct Hshape as [E|(dl & E & _)]; rewrite E; reflexivity. }
+        assert (Hla' : log_always (y_log y')).
+        { rewrite Hlog'. intros k dl un run [H|H]; [discriminate|]. eapply Hla; exact H. }
+        assert (Hlg' : y_bad y' = false -> log_good (y_log y')).
+        { intros Hb. destruct (Hatt Hb) as [Hb1 [Ha _]]. destruct (Hg Hb1) as [_ [Hg1 Hg2]].
+          rewrite Hlog'. split.
+          - intros k res sl tt un [H|H]; [|eapply Hg1; exact H].
+            injection H as _ _ _ <- <-. exact Ha.
+          - intros k dl un run [H|H]; [discriminate|]. eapply Hg2; exact H. }
+        destruct Hshape as [E|(dl & E & Edl)].
+        - unfold minv. rewrite <- Hs, E. split; [exact Hli'|]. split; [exact I|]. split; [exact Hla'|].
+          intros Hb. split; [exact I|apply Hlg'; exact Hb].
+        - assert (Hbeg : phase_begins (y_s y) s2 = true) by (unfold phase_begins; rewrite Hp, E; reflexivity).
+          rewrite Hbeg in Hun, Hrun, Hbad.
+          unfold minv. rewrite <- Hs, E, Edl, Hun, Hrun.
+          split; [exact Hli'|]. split; [change (rem (k_dsl (d_ck (dinit dl)))) with dl; lia|].
+          split; [exact Hla'|]. intros Hb. split; [|apply Hlg'; exact Hb].
+          rewrite Hbad in Hb. apply bad_false_parts in Hb as (_ & Hb2 & _). cbn [andb] in Hb2.
+          split; [lia|]. intros _. rewrite <- Ht in Hb2.
+          change (is_stop (lt_jc (y_t y'))) with (jc_stop (lt_jc (y_t y'))). rewrite Hb2. reflexivity. }
+      all: injection Hl as Hs _; rewrite <- Hs in *;
+        assert (Hbeg : phase_begins (y_s y) (with_lph (y_s y) (LAttempt u')) = false)
+          by (unfold phase_begins; rewrite Hp; reflexivity);
+        rewrite Hbeg in Hun, Hrun, Hbad;
+        assert (Hlog' : y_log y' = y_log y) by (rewrite Hlog; unfold log_step; rewrite Hp; reflexivity);
+        unfold minv; rewrite <- Hs, Hlog', Hun; cbn [l_ph with_lph mkl];
+        (split; [exact Hli'|]); (split; [rewrite Hph'; discriminate|]); (split; [exact Hla|]);
+        intros Hb; destruct (Hatt Hb) as [Hb1 Ha]; (split; [exact Ha|apply Hg; exact Hb1]).
+    - (* the retry delay *)
+      destruct (devent_of e) as [de|] eqn:Hde.
+      2:{ injection Hl as Hs _.
+          apply (minv_idle_consuming unicast c y e y' Hinv Hstep (eq_sym Hs)).
+          destruct e as [[]| |]; cbn in Hde; try discriminate; exact I. }
+      destruct (dstep tbl d de) as [[d' outs]|] eqn:Hds; [|discriminate].
+      destruct Hinv as (Hli & Hph & Hla & Hg). rewrite Hp in Hph, Hg.
+      unfold linv in Hli. rewrite Hp in Hli. destruct Hli as [Hbinv [Hw Hdn]].
+      destruct (devent_env unicast (y_s y) (y_t y) e de Hok Hde) as [Hdo Hdj].
+      destruct (del_step d (y_t y) (y_un y) (y_run y) (l_delay (y_s y)) e de d' outs
+                         Hds Hde Hdn Hdo Hdj Hph) as (H1 & H2 & H3).
+      cbv zeta in H1, H2, H3.
+      assert (Hig : ignores_job_control (y_s y) = false)
+        by (unfold ignores_job_control; rewrite Hp; reflexivity).
+      rewrite Hig in Hbad. cbn [andb] in Hbad. rewrite Bool.orb_false_r in Hbad.
+      destruct (d_done d') eqn:Hdd.
+      + (* the wait is over: on to the RetryStarted handshake *)
+        injection Hl as Hs _.
+        assert (Hbeg : phase_begins (y_s y) (y_s y') = false)
+          by (rewrite <- Hs; unfold phase_begins; rewrite Hp; reflexivity).
+        rewrite Hbeg in Hbad. cbn [andb] in Hbad. rewrite Bool.orb_false_r in Hbad.
+        assert (Hlog' : y_log y' =
+                  RDelay (l_k (y_s y)) (l_delay (y_s y))
+                         (y_un y + (if jc_stop (lt_jc (y_t y)) then 0 else tick_of e))
+                         (y_run y + (if lpaused (k_dsl (d_ck d)) then 0 else tick_of e))
+                         match e with LU (Req r) => is_cancel_req r | _ => false end :: y_log y).
+        { rewrite Hlog, <- Hs. unfold log_step. rewrite Hp. reflexivity. }
+        unfold minv. rewrite <- Hs in Hli' |- *. cbn [l_ph with_lph mkl]. rewrite Hlog'.
+        split; [exact Hli'|]. split; [exact I|]. split.
+        * intros k dl un run [H|H]; [|eapply Hla; exact H].
+          injection H as _ <- _ <- Hc. apply H2; [reflexivity|exact Hc].
+        * intros Hb. rewrite Hbad in Hb. destruct (Hg Hb) as [Hdg [Hg1 Hg2]].
+          split; [exact I|]. split.
+          -- intros k res sl tt un [H|H]; [discriminate|]. eapply Hg1; exact H.
+          -- intros k dl un run [H|H]; [|eapply Hg2; exact H].
+             injection H as _ <- <- _ Hc. destruct (H3 Hdg) as [Hru _].
+             specialize (H2 eq_refl Hc). lia.
+      + (* still waiting *)
+        injection Hl as Hs _.
+        assert (Hbeg : phase_begins (y_s y) (y_s y') = false)
+          by (rewrite <- Hs; unfold phase_begins; rewrite Hp; reflexivity).
+        rewrite Hbeg in Hbad, Hun, Hrun. cbn [andb] in Hbad. rewrite Bool.orb_false_r in Hbad.
+        assert (Hlog' : y_log y' = y_log y) by (rewrite Hlog, <- Hs; unfold log_step; rewrite Hp; reflexivity).
+        unfold minv. rewrite <- Hs in Hli' |- *. cbn [l_ph l_delay with_lph mkl]. rewrite Hlog', Hun, Hrun.
+        split; [exact Hli'|]. split; [apply H1; reflexivity|]. split; [exact Hla|].
+        intros Hb. rewrite Hbad in Hb. destruct (Hg Hb) as [Hdg Hlg]. split; [|exact Hlg].
+        destruct (H3 Hdg) as [Hru Hdi]. split; [exact Hru|]. rewrite Ht. apply Hdi. reflexivity.
+    - (* waiting for the answer to RetryStarted *)
+      assert (Hnc : consuming (y_s y) = false) by (unfold consuming; rewrite Hp; reflexivity).
+      destruct e as [ue| |[]];
+        try (injection Hl as Hs _; apply (minv_idle_nonconsuming unicast c y _ y' Hinv Hstep Hnc (eq_sym Hs))).
+      + injection Hl as Hs _.
+        apply (minv_begin_attempt c y y' (lc_unit c) Hinv Hli').
+        * rewrite <- Hs. reflexivity.
+        * rewrite Hun, <- Hs. unfold phase_begins. rewrite Hp. reflexivity.
+        * rewrite Hlog. unfold log_step. rewrite Hp. reflexivity.
+        * intros Hb. rewrite Hbad in Hb. apply bad_false_parts in Hb as (Hb1 & Hb2 & _).
+          split; [exact Hb1|]. rewrite <- Hs in Hb2. unfold phase_begins in Hb2. rewrite Hp in Hb2.
+          cbn [l_ph mkl andb] in Hb2. rewrite Ht. exact Hb2.
+      + injection Hl as Hs _. apply (minv_passive c y y' Hinv Hli').
+        * rewrite <- Hs. reflexivity.
+        * rewrite Hlog. unfold log_step. rewrite Hp. reflexivity.
+        * intros Hb. rewrite Hbad in Hb. apply bad_false_parts in Hb as (Hb1 & _). exact Hb1.
+    - injection Hl as Hs _. apply (minv_idle_nonconsuming unicast c y e y' Hinv Hstep); [|symmetry; exact Hs].
+      unfold consuming. rewrite Hp. reflexivity.
+    - injection Hl as Hs _. apply (minv_idle_nonconsuming unicast c y e y' Hinv Hstep); [|symmetry; exact Hs].
+      unfold consuming. rewrite Hp. reflexivity.
+  Qed.
+End LifeMonitor.
+
+(* ------------------------------------------------------------ runs *)
+Lemma minv_run tbl RS (Hcert : life_cert_with tbl RS = true) (Hd : dcert tbl = true) unicast c :
+  forall es y y', minv RS c y -> lsys_run unicast tbl c y es = LOk y' -> minv RS c y'.
+Proof.
+  induction es as [|e es IH]; intros y y' Hi H; cbn [lsys_run] in H.
+  - injection H as <-. exact Hi.
+  - destruct (lsys_step unicast tbl c y e) as [y1| |] eqn:E; try discriminate.
+    eapply IH; [|exact H]. eapply minv_step; eassumption.
+Qed.
+
+Lemma lsys_run_app unicast tbl c : forall es1 es2 y,
+  lsys_run unicast tbl c y (es1 ++ es2) =
+  match lsys_run unicast tbl c y es1 with
+  | LOk y1 => lsys_run unicast tbl c y1 es2
+  | r => r
+  end.
+Proof.
+  induction es1 as [|e es1 IH]; intros es2 y; cbn [lsys_run app]; [reflexivity|].
+  destruct (lsys_step unicast tbl c y e); try reflexivity. apply IH.
+Qed.
+
+(* ------------------------------------------------------------ cancellation (no certificate
+   needed: these follow from the control flow of run_test_instance and the environment rules) *)
+Lemma finish_attempt_k c s u r : finish_attempt c s u = Ok r ->
+  l_k (fst r) = l_k s /\ l_ph (fst r) <> LAwaitStart.
+Proof.
+  unfold finish_attempt. intros H.
+  destruct (ures_success (uresult u)); [injection H as <-; split; [reflexivity|discriminate]|].
+  destruct (l_k s <? lc_total c).
+  - destruct (b_next (lc_js c (l_k s)) (l_bs s)) as [[d bs']|]; [|discriminate].
+    injection H as <-. split; [reflexivity|discriminate].
+  - injection H as <-. split; [reflexivity|discriminate].
+Qed.
+
+(* once a cancel request has been delivered the attempt number never changes again *)
+Lemma cancel_freezes_attempts unicast tbl c y e y' :
+  lsys_step unicast tbl c y e = LOk y' ->
+  lt_cancel (y_t y) = true -> l_ph (y_s y) <> LAwaitStart ->
+  l_k (y_s y') = l_k (y_s y) /\ lt_cancel (y_t y') = true /\ l_ph (y_s y') <> LAwaitStart.
+Proof.
+  unfold lsys_step. intros H Hc Hns.
+  destruct (lenv_ok unicast (y_s y) (y_t y) e) eqn:Hok; [|discriminate].
+  destruct (lstep tbl c (y_s y) e) as [[s' o]|] eqn:Hl; [|discriminate].
+  injection H as <-. cbn [y_s y_t].
+  assert (Hc' : lt_cancel (lenv_next (y_t y) e) = true).
+  { destruct e as [[| | | | | |r]| |]; cbn [lenv_next lt_cancel]; try exact Hc. rewrite Hc. reflexivity. }
+  split; [|split; [exact Hc'|]].
+  - unfold lstep in Hl. destruct (l_ph (y_s y)) as [|u|d| | |] eqn:Hp.
+    + contradiction.
+    + destruct e as [ue| |a]; try (injection Hl as <- _; reflexivity).
+      destruct (ustep tbl (lc_unit c) u ue) as [[u' outs]|]; [|discriminate].
+      destruct (ph u'); try (injection Hl as <- _; reflexivity).
+      destruct (finish_attempt c (y_s y) u') as [r|] eqn:Hf; cbn [obind] in Hl; [|discriminate].
+      injection Hl as <- _. apply (finish_attempt_k c (y_s y) u' r Hf).
+    + destruct (devent_of e); [|injection Hl as <- _; reflexivity].
+      destruct (dstep tbl d d0) as [[d' outs]|]; [|discriminate].
+      destruct (d_done d'); injection Hl as <- _; reflexivity.
+    + destruct e as [ue| |[]]; try (injection Hl as <- _; reflexivity).
+      cbn [lenv_ok] in Hok. rewrite Hp, Hc in Hok. discriminate.
+    + injection Hl as <- _. reflexivity.
+    + injection Hl as <- _. reflexivity.
+  - unfold lstep in Hl. destruct (l_ph (y_s y)) as [|u|d| | |] eqn:Hp.
+    + contradiction.
+    + destruct e as [ue| |a]; try (injection Hl as <- _; rewrite Hp; discriminate).
+      destruct (ustep tbl (lc_unit c) u ue) as [[u' outs]|]; [|discriminate].
+      destruct (ph u'); try (injection Hl as <- _; discriminate).
+      destruct (finish_attempt c (y_s y) u') as [r|] eqn:Hf; cbn [obind] in Hl; [|discriminate].
+      injection Hl as <- _. apply (finish_attempt_k c (y_s y) u' r Hf).
+    + destruct (devent_of e); [|injection Hl as <- _; rewrite Hp; discriminate].
+      destruct (dstep tbl d d0) as [[d' outs]|]; [|discriminate].
+      destruct (d_done d'); injection Hl as <- _; discriminate.
+    + destruct e as [ue| |[]]; try (injection Hl as <- _; try rewrite Hp; discriminate).
+    + injection Hl as <- _. rewrite Hp. discriminate.
+    + injection Hl as <- _. rewrite Hp. discriminate.
+Qed.
+
+Lemma cancel_freezes_run unicast tbl c : forall es y y',
+  lsys_run unicast tbl c y es = LOk y' ->
+  lt_cancel (y_t y) = true -> l_ph (y_s y) <> LAwaitStart ->
+  l_k (y_s y') = l_k (y_s y) /\ lt_cancel (y_t y') = true.
+Proof.
+  induction es as [|e es IH]; intros y y' H Hc Hns; cbn [lsys_run] in H.
+  - injection H as <-. split; [reflexivity|exact Hc].
+  - destruct (lsys_step unicast tbl c y e) as [y1| |] eqn:E; try discriminate.
+    destruct (cancel_freezes_attempts unicast tbl c y e y1 E Hc Hns) as (Hk & Hc1 & Hns1).
+    destruct (IH y1 y' H Hc1 Hns1) as [Hk' Hc']. split; [congruence|exact Hc'].
+Qed.
+
+(* requests are only delivered once the unit has been started *)
+Lemma started_if_delivered unicast tbl c : forall es y y',
+  lsys_run unicast tbl c y es = LOk y' ->
+  (l_ph (y_s y) = LAwaitStart -> y_t y = lt0) ->
+  (l_ph (y_s y') = LAwaitStart -> y_t y' = lt0).
+Proof.
+  induction es as [|e es IH]; intros y y' H Hi; cbn [lsys_run] in H.
+  - injection H as <-. exact Hi.
+  - destruct (lsys_step unicast tbl c y e) as [y1| |] eqn:E; try discriminate.
+    apply (IH y1 y' H). clear IH H.
+    unfold lsys_step in E.
+    destruct (lenv_ok unicast (y_s y) (y_t y) e) eqn:Hok; [|discriminate].
+    destruct (lstep tbl c (y_s y) e) as [[s' o]|] eqn:Hl; [|discriminate].
+    injection E as <-. cbn [y_s y_t]. intros Hs'.
+    unfold lstep in Hl. destruct (l_ph (y_s y)) as [|u|d| | |] eqn:Hp.
+    + destruct e as [[| | | | | |r]| |[]]; try (rewrite (Hi eq_refl); reflexivity);
+        try (injection Hl as <- _; discriminate).
+      cbn [lenv_ok] in Hok. unfold consuming in Hok. rewrite Hp in Hok. discriminate.
+    + exfalso. destruct e as [ue| |a]; try (injection Hl as <- _; congruence).
+      destruct (ustep tbl (lc_unit c) u ue) as [[u' outs]|]; [|discriminate].
+      destruct (ph u'); try (injection Hl as <- _; discriminate).
+      destruct (finish_attempt c (y_s y) u') as [r|] eqn:Hf; cbn [obind] in Hl; [|discriminate].
+      injection Hl as <- _. apply (proj2 (finish_attempt_k c (y_s y) u' r Hf)). exact Hs'.
+    + exfalso. destruct (devent_of e); [|injection Hl as <- _; congruence].
+      destruct (dstep tbl d d0) as [[d' outs]|]; [|discriminate].
+      destruct (d_done d'); injection Hl as <- _; discriminate.
+    + exfalso. destruct e as [ue| |[]]; injection Hl as <- _; try congruence; discriminate.
+    + exfalso. injection Hl as <- _. congruence.
+    + exfalso. injection Hl as <- _. congruence.
+Qed.
+
+Theorem no_attempt_after_cancel unicast tbl c es1 es2 y1 y2 :
+  lsys_run unicast tbl c (lsys0 c) es1 = LOk y1 -> lt_cancel (y_t y1) = true ->
+  lsys_run unicast tbl c y1 es2 = LOk y2 ->
+  l_k (y_s y2) = l_k (y_s y1) /\ lt_cancel (y_t y2) = true.
+Proof.
+  intros H1 Hc H2. apply (cancel_freezes_run unicast tbl c es2 y1 y2 H2 Hc).
+  intros Hp. pose proof (started_if_delivered unicast tbl c es1 (lsys0 c) y1 H1 (fun _ => eq_refl) Hp) as Ht.
+  rewrite Ht in Hc. discriminate.
+Qed.
+
+(* with the dispatcher's repeat of the cancel request (F10 repair) no time is spent in a retry
+   delay once a cancel request has been delivered *)
+Lemma dc_zero_step tbl c y e y' :
+  lsys_step true tbl c y e = LOk y' -> y_dc y = 0 -> y_dc y' = 0.
+Proof.
+  unfold lsys_step. intros H H0.
+  destruct (lenv_ok true (y_s y) (y_t y) e) eqn:Hok; [|discriminate].
+  destruct (lstep tbl c (y_s y) e) as [[s' o]|]; [|discriminate].
+  injection H as <-. cbn [y_dc]. rewrite H0.
+  destruct (l_ph (y_s y)) eqn:Hp; try reflexivity.
+  destruct (lt_cancel (y_t y)) eqn:Hc; [|reflexivity].
+  destruct e as [[dt| | | | | |r]| |]; try reflexivity.
+  cbn [lenv_ok] in Hok. rewrite Hp, Hc in Hok. cbn in Hok. apply N.eqb_eq in Hok. subst. reflexivity.
+Qed.
+
+Theorem no_delay_after_cancel tbl c : forall es y y',
+  lsys_run true tbl c y es = LOk y' -> y_dc y = 0 -> y_dc y' = 0.
+Proof.
+  induction es as [|e es IH]; intros y y' H H0; cbn [lsys_run] in H.
+  - injection H as <-. exact H0.
+  - destruct (lsys_step true tbl c y e) as [y1| |] eqn:E; try discriminate.
+    apply (IH y1 y' H). eapply dc_zero_step; eassumption.
+Qed.
+
+(* a cancel request delivered during the delay ends the delay in that very step; the unit goes
+   on to the RetryStarted handshake, which the environment can then only refuse *)
+Lemma cancel_ends_delay tbl c s d r :
+  l_ph s = LDelay d -> d_done d = false -> is_cancel_req r = true ->
+  lstep tbl c s (LU (Req r)) = Ok (with_lph s LAwaitRetry, [LRetryStarted (l_k s + 1)]).
+Proof.
+  intros Hp Hdn Hc. unfold lstep. rewrite Hp. cbn [devent_of]. unfold dstep. rewrite Hdn.
+  destruct r as [| |sr| |]; try discriminate; reflexivity.
+Qed.
+
+Lemma refused_is_terminal tbl c s :
+  l_ph s = LAwaitRetry ->
+  lstep tbl c s (LAnswer false) = Ok (with_lph s LRefusedP, []) /\ terminal (with_lph s LRefusedP) = true.
+Proof. intros Hp. unfold lstep. rewrite Hp. split; reflexivity. Qed.
+
+(* ------------------------------------------------------------ information requests *)
+Definition life_info_tag (s : lstate) : option itag :=
+  match l_ph s with
+  | LAttempt u => info_tag (ph u)
+  | LDelay _ => Some IDelay
+  | _ => None
+  end.
+
+(* exactly one response in the running / terminating / leak-drain / delay loops, tagged with that
+   loop, and no change of state; none while the unit is not reading its channel *)
+Lemma life_info_once tbl c s :
+  (forall u, l_ph s = LAttempt u -> ph u <> PDone) ->
+  (forall d, l_ph s = LDelay d -> d_done d = false) ->
+  lstep tbl c s (LU (Req RGetInfo)) =
+  Ok (s, match life_info_tag s with Some i => [LO (OInfo i)] | None => [] end).
+Proof.
+  intros Hnd Hdd. unfold lstep, life_info_tag.
+  destruct (l_ph s) as [|u|d| | |] eqn:Hp; try reflexivity.
+  - unfold ustep. cbn [annotate]. rewrite info_once.
+    specialize (Hnd u eq_refl).
+    assert (Hs : with_lph s (LAttempt u) = s) by (destruct s; cbn in *; subst; reflexivity).
+    destruct (ph u) as [|x| | |] eqn:Hph; cbn [info_tag map]; try rewrite Hs; try reflexivity.
+    contradiction.
+  - cbn [devent_of]. unfold dstep. rewrite (Hdd d eq_refl). rewrite (Hdd d eq_refl).
+    assert (Hs : with_lph s (LDelay d) = s) by (destruct s; cbn in *; subst; reflexivity).
+    rewrite Hs. reflexivity.
+Qed.
